@@ -351,7 +351,7 @@ func (e *Evaluator) evalExpr(expr Expr) (*Cell, error) {
 			// a quoted key is a string literal like any other, escapes included
 			keyCell, err := e.evalString(kv.Key)
 			if err != nil {
-				return nil, e.error(expr.Token(), err.Error())
+				return nil, e.error(kv.KeyToken, err.Error())
 			}
 			key := *keyCell.Value.Str
 
@@ -363,7 +363,7 @@ func (e *Evaluator) evalExpr(expr Expr) (*Cell, error) {
 			cell := NewCell(Value{Tag: ValueUnknown})
 			newCell, err := copyValue(value, cell)
 			if err != nil {
-				return nil, e.error(expr.Token(), err.Error())
+				return nil, e.error(kv.Value.Token(), err.Error())
 			}
 
 			(*obj.Obj)[key] = newCell
